@@ -29,7 +29,9 @@ EXPLANATION = (
     "wrapper, executed abstractly with the table seeded with marker kernels and the initialiser hooked, "
     "builds the table when it is not built and then calls exactly its own slot with its own arguments in "
     "order; (5) `cmpgt(and(x, M), 0)` with a constant M of single-bit lanes is a bit test: no lane of M may be "
-    "the sign bit of the compared width (the masked value is then negative and a set bit reads as clear). "
+    "the sign bit of the compared width (the masked value is then negative and a set bit reads as clear); (6) a "
+    "per-lane counter `acc = sub_epiN(acc, cmpeq(...))` is flushed after at most 2^(N-1)-1 iterations when the "
+    "flush reads the lanes as signed (madd_epi16, cvtepi16), 2^N-1 when unsigned. "
     "Decides these clauses, not equality of outputs with the scalar definition; ARM kernels are "
     "not part of this build.")
 
@@ -403,6 +405,9 @@ def run(ctx):
     ctx.clause("C15.5 a single-bit mask test is not decided by a signed vector compare that the sign-bit lane of the mask makes negative")
     nsb = lanes.check_signed_bit_test(ctx, P.funcs_under("src/simd/"))
     ctx.count("signed_bit_tests", nsb)
+    ctx.clause("C15.6 per-lane match counters are flushed before a lane can outgrow the way it is read (signed / unsigned)")
+    nlc = lanes.check_lane_counters(ctx, P.funcs_under("src/simd/"))
+    ctx.count("lane_counters", nlc)
     rec = P.record("carquet_simd_dispatch_t") if "carquet_simd_dispatch_t" in P.records else None
     if rec is None:
         for name, r in P.records.items():
